@@ -8,6 +8,10 @@ package checks
 // StateDB's own API (CreateAccount / DestroyAccount / Suicide / touch / SubBalance + CommitMultiStore) on CacheContext
 // branches of one world per clock placement.
 //
+// The last sentence of the property (deleted accounts are removed completely) additionally has its own LIFECYCLE product in
+// c15_life.go: how the account came to exist × what it did before dying × how it dies × what happens afterwards, with a reference
+// model of the subject account and an oracle that reads the auth / bank / x/evm stores directly after every committed block.
+//
 // Time: the oracle is stated in terms of BLOCK TIME only. The machine's wall clock is never part of an expectation; it
 // is read in exactly one place (c15WallClockSide) to decide whether an observed violation is exactly what "the destroy
 // guard compares the vesting end with time.Now()" predicts, i.e. to compute a defect signature.
@@ -495,6 +499,11 @@ type c15Exec struct {
 	NTx       int                         // number of transactions of the program (each failed one may still advance the sender's nonce)
 	Primitive string                      // keeper level: "destroy" | "suicide" | "create" | "" — see c15Oracle
 	X         common.Address
+	// lifecycle product (c15_life.go): Skip = accounts whose exact post-state is decided by the lifecycle reference model instead of
+	// the clauses below; MaySpendD / MayGainD = entitlements in denominations other than the EVM denomination
+	Skip      map[common.Address]bool
+	MaySpendD map[string]map[common.Address]*big.Int
+	MayGainD  map[string]map[common.Address]*big.Int
 }
 
 type c15Fail struct {
@@ -527,6 +536,9 @@ func c15Oracle(blockTime time.Time, pre, post *c15Snap, ex c15Exec) (fails []c15
 		return zero
 	}
 	for _, a := range addrs {
+		if ex.Skip[a] {
+			continue
+		}
 		p, q := pre.get(a), post.get(a)
 		isSender := ex.Sender != nil && *ex.Sender == a
 		_, isModule := p.acc.(sdk.ModuleAccountI)
@@ -616,6 +628,9 @@ func c15Oracle(blockTime time.Time, pre, post *c15Snap, ex c15Exec) (fails []c15
 					if isSender && ex.MaxFee != nil {
 						lo.Sub(lo, ex.MaxFee)
 					}
+				} else {
+					lo.Sub(lo, amt(ex.MaySpendD[d], a))
+					hi.Add(hi, amt(ex.MayGainD[d], a))
 				}
 				if ex.Primitive == "suicide" && a == ex.X && d == world.Denom {
 					lo = zero // Suicide clears the EVM-denom balance of the account by definition
@@ -1271,6 +1286,12 @@ func runC15(replay string) int {
 	}
 	if replay != "" {
 		return replayCase(run, replay, func(raw json.RawMessage) []ev.Finding {
+			if lc, ok := c15LifeIsReplay(raw); ok {
+				var kw *c15LifeKeeperWorld
+				r := c15RunLife(lc, &kw)
+				fmt.Printf("lifecycle case %s: X %s — %s\n", lc.id(), r.Class, r.Detail)
+				return c15LifeFindings(r)
+			}
 			var g c15Group
 			if err := json.Unmarshal(raw, &g); err != nil {
 				fmt.Fprintln(os.Stderr, err)
@@ -1288,8 +1309,31 @@ func runC15(replay string) int {
 		})
 	}
 	groups := c15Groups(run.Thorough())
+	lifeCases := c15LifeCases(run.Thorough())
 	run.Sharded(Shards(), func(shard, n int) {
 		kws := map[string]*c15KeeperWorld{}
+		// the lifecycle product (c15_life.go)
+		var lifeKW *c15LifeKeeperWorld
+		for i, lc := range lifeCases {
+			if i%n != shard {
+				continue
+			}
+			r := c15RunLife(lc, &lifeKW)
+			if i < 2*n {
+				r2 := c15RunLife(lc, &lifeKW)
+				if r.Class != r2.Class || r.Detail != r2.Detail || len(r.Fails) != len(r2.Fails) {
+					fmt.Fprintf(os.Stderr, "HARNESS-NONDETERMINISM in C15 lifecycle case %d %s\n  %s\n  %s\n", i, lc.id(), r.Detail, r2.Detail)
+					os.Exit(2)
+				}
+			}
+			c15LifeCount(run, r)
+			if i%(len(lifeCases)/4+1) == 0 {
+				run.Sample(map[string]interface{}{"lifecycle_case": lc, "class": r.Class, "detail": r.Detail})
+			}
+			for _, f := range c15LifeFindings(r) {
+				run.Fail(f)
+			}
+		}
 		for i, g := range groups {
 			if i%n != shard {
 				continue
@@ -1364,7 +1408,10 @@ func runC15(replay string) int {
 	})
 	// vacuity guards: the interesting outcome classes must have occurred
 	for _, c := range []string{"sanity/guard_refused_module_account", "sanity/guard_refused_unexpired_vesting_account", "sanity/bank_refused_locked_coins",
-		"sanity/empty_base_account_deleted_eip158", "sanity/expired_vesting_account_deleted", "sanity/selfdestruct_committed"} {
+		"sanity/empty_base_account_deleted_eip158", "sanity/expired_vesting_account_deleted", "sanity/selfdestruct_committed",
+		"sanity/life_selfdestructed_with_storage_deleted", "sanity/life_selfdestructed_in_init_code_deleted", "sanity/life_selfdestructed_with_second_denom_deleted",
+		"sanity/life_empty_account_touched_deleted", "sanity/life_reverted_selfdestruct_kept", "sanity/life_recreated_on_blank_account",
+		"sanity/life_selfdestructed_in_init_with_storage_tx", "sanity/life_selfdestructed_in_init_with_storage_evm"} {
 		if run.Counter(c) == 0 {
 			run.Fail(ev.Finding{Clause: "alphabet-sanity", Detail: "outcome class never observed: " + c, Replay: map[string]string{"counter": c}})
 		}
@@ -1389,6 +1436,7 @@ func runC15(replay string) int {
 		perWorld += len(c15SchedLabels(f, run.Thorough(), c15ShapeClockQuick))
 	}
 	run.Coverage["groups"] = len(groups)
+	run.Coverage["lifecycle_cases"] = len(lifeCases)
 	run.Coverage["exhaustive"] = true
 	run.Coverage["rule"] = fmt.Sprintf("full product, every case executed on the real app: clock placement {block time 2001-01-01T02:00Z, 2100-01-01T02:00Z} × program × target. "+
 		"Targets: module accounts {bonded pool, evm, custom funded multi-denom, custom empty}; base accounts {empty, funded multi-denom, holding only utwo}; non-existent address; contract with code+storage+2 denoms; "+
@@ -1400,7 +1448,7 @@ func runC15(replay string) int {
 		"Transaction-level programs through FinalizeBlock (fresh app per case, holding the target and the two control accounts of its kind and balance shape) %v with X = target, and %v with X = sender (amounts relative to balance − LockedCoins(T)); "+
 		"StateDB-level programs on CacheContext branches %v. Every case: full pre/post observation of every auth account (type, sequence, all balances, code hash, storage, raw auth/bank/evm store scan for the address). "+
 		"Reference: 'vesting period not ended' = EndTime > T.Unix() as int64 (never through time.Time); locked coins = the SDK account's LockedCoins(T). "+
-		"distinct_nontrivial = cases whose target is protected/vesting-unexpired or whose outcome is not 'kept'",
+		"distinct_nontrivial = cases whose target is protected/vesting-unexpired or whose outcome is not 'kept', plus every lifecycle case."+c15LifeRule(run.Thorough()),
 		c15Variants, perWorld, ends, c15Shapes("vest-continuous", run.Thorough()), c15PeriodShapes, map[bool][]string{false: c15ShapeEndsQuick, true: c15ShapeEndsThorough}[run.Thorough()], txp, sp, c15KeeperProgs)
 	return run.Finish()
 }
